@@ -11,7 +11,12 @@ import (
 // at the instant Snapshot runs (gob encode/decode fidelity is outside the claim).
 var zzSnaps []*DB
 
+// ZZSnapSeq: ghost time at which the last snapshot captured the DB
+var ZZSnapSeq int
+
 func ZZSnapshot(s *DB, w io.Writer) error {
+	rt.Yield()
+	ZZSnapSeq = rt.Tick()
 	cp := rt.DeepCopy(s).(*DB)
 	zzSnaps = append(zzSnaps, cp)
 	_, err := w.Write([]byte{byte(len(zzSnaps))})
